@@ -27,3 +27,46 @@ def check_and_replay(res, name, K, own=None, depth_all=4, walks=2000, walk_len=3
         res.sample({'config': name, 'scripts': {k: [list(x) for x in v] for k, v in K['Script'].items()},
                     'calls': ['%s%s' % (n, list(a)) for n, a in labs]})
     return g
+
+
+def trace_validate(res, name, n_coroutines, n_traces, n_calls):
+    """Pipeline B: random scripts for n coroutines; random start/kill/process schedules on the real processor."""
+    import copy
+    import os
+    import random
+    from .. import tracecheck, record_coroutines as rc, tla
+    desper = common.import_desper()
+    rnd = random.Random(res.seed)
+    G, S = rc.random_scripts(rnd, n_coroutines)
+    K = dict(G=G, Script=S, Dts={0, 1, 2, 3}, MaxTimer=1000000, WithKill=True, StartCancelsPendingKill=True, FinishDropsKillMark=True)
+    traces = rc.record(desper, K, res.seed, n_traces, n_calls)
+    gen = 'CoroutinesTrace_%s' % name
+    defs, consts, ov = [], {}, {}
+    for k, v in K.items():
+        if isinstance(v, (bool, int)):
+            consts[k] = tla.to_tla(v)
+        else:
+            defs.append('K_%s == %s' % (k, tla.to_tla(v)))
+            ov[k] = 'K_' + k
+    with open(os.path.join(res.specdir, gen + '.tla'), 'w') as f:
+        f.write('---- MODULE %s ----\nEXTENDS CoroutinesTrace\n%s\n====\n' % (gen, '\n'.join(defs)))
+    rej = tracecheck.validate(res, gen, name, traces, consts, overrides=ov, invariants=INVARIANTS)
+    res.traces += len(traces) - len(rej)
+    res.cov.setdefault('trace_validation', {})[name] = {'coroutines': n_coroutines, 'traces': len(traces), 'events': sum(len(t['events']) for t in traces),
+                                                        'accepted': len(traces) - len(rej), 'rejected': len(rej),
+                                                        'scripts': {g: [list(x) for x in s] for g, s in S.items()}}
+    for idx, at in rej[:5]:
+        t = traces[idx] if idx >= 0 else None
+        res.violation('recorded execution of CoroutineProcessor not explained by Coroutines.tla: trace %d, event %s' % (idx, at),
+                      {'scripts': {g: [list(x) for x in s] for g, s in S.items()}, 'matched_events': at,
+                       'history': [[e['op'], e['arg']] for e in (t['events'][:at + 1] if t and isinstance(at, int) else [])],
+                       'next_event': t['events'][at] if t and isinstance(at, int) and at < len(t['events']) else None})
+    res.sample({'recorded_schedule': [[e['op'], e['arg']] for e in traces[0]['events'][:12]], 'scripts': {g: [list(x) for x in s] for g, s in S.items()}})
+    bad = copy.deepcopy(traces[:1])
+    k = next((i for i, e in enumerate(bad[0]['events']) if e['log']), None)
+    if k is not None:
+        bad[0]['events'][k]['log'] = bad[0]['events'][k]['log'][:-1]
+        r2 = tracecheck.validate(res, gen, name + '-corrupted', bad, consts, overrides=ov)
+        res.cov['trace_validation'][name]['corrupted_trace_rejected_at_event'] = r2[0][1] if r2 else None
+        if not (len(r2) == 1 and r2[0][1] == k):
+            raise common.MachineryError('trace validation accepted a corrupted coroutine trace: %r (corrupted event %d)' % (r2, k))
